@@ -2026,7 +2026,7 @@ HalfFaceHandle TopologyKernel::find_halfface_in_cell(const std::vector<VertexHan
       {
         HalfEdgeHandle heh_opp = opposite_halfedge_handle(heh);
         HalfFaceHandle hfh_opp = adjacent_halfface_in_cell(hfh,heh);
-        if(to_vertex_handle(next_halfedge_in_halfface(heh_opp,hfh_opp)) == v2)
+        if(hfh_opp.is_valid() && to_vertex_handle(next_halfedge_in_halfface(heh_opp,hfh_opp)) == v2)
           return hfh_opp;
       }
     }
